@@ -69,6 +69,24 @@ def run(c, cfg, err, **kw):
     return hooks.run_adaptive(c, **args)
 
 
+def maybe_prior_run(rng, c, cfg, err, res, prob=0.15):
+    """The same strategy object already served an earlier, unobserved run from scratch (other start levels / few steps)."""
+    if rng.random() >= prob:
+        return False
+    saved = c.vobs
+    c.vobs = None
+    lmin0 = rng.choice([1, cfg["lmin"]])
+    lmax0 = lmin0 + rng.choice([1, 2])
+    try:
+        hooks.run_adaptive(c, lmin=lmin0, lmax=lmax0, errorOperator=err, tol=-1.0, do_plot=False, print_output=False,
+                           max_evaluations=rng.choice([1, 30, 80]))
+    finally:
+        c.vobs = saved
+    cfg["prior_run_on_same_object"] = [lmin0, lmax0]
+    res.count("prior_runs_on_same_object")
+    return True
+
+
 def maybe_restart(rng, c, cfg, err, obs, res, prob=0.2):
     """The documented way to go on from an existing refinement: a second performSpatiallyAdaptiv with the ORIGINAL start
     levels and refinement_container=<current refinement>; the observer keeps watching the continued history."""
